@@ -324,3 +324,78 @@ pub mod vfs {
     pub use super::tokio::fs::{try_exists, create_dir_all, rename, metadata};
     pub use super::File;
 }
+
+// ---- tokio OpenOptions / async_fd_lock guard as used by sos_filesystem::write_exclusive ----------
+/// tokio OpenOptions / async_fd_lock write guard as used by write_exclusive
+#[verifier::external_body]
+pub struct OpenOptions { _p: () }
+impl OpenOptions {
+    pub uninterp spec fn o_create(&self) -> bool;
+    pub uninterp spec fn o_truncate(&self) -> bool;
+    pub uninterp spec fn o_write(&self) -> bool;
+    #[verifier::external_body]
+    pub fn new() -> (r: OpenOptions)
+        ensures !r.o_create() && !r.o_truncate() && !r.o_write(),
+    { unimplemented!() }
+    #[verifier::external_body]
+    pub fn create(self, v: bool) -> (r: OpenOptions)
+        ensures r.o_create() == v && r.o_truncate() == self.o_truncate() && r.o_write() == self.o_write(),
+    { unimplemented!() }
+    #[verifier::external_body]
+    pub fn truncate(self, v: bool) -> (r: OpenOptions)
+        ensures r.o_create() == self.o_create() && r.o_truncate() == v && r.o_write() == self.o_write(),
+    { unimplemented!() }
+    #[verifier::external_body]
+    pub fn read(self, v: bool) -> (r: OpenOptions)
+        ensures r.o_create() == self.o_create() && r.o_truncate() == self.o_truncate() && r.o_write() == self.o_write(),
+    { unimplemented!() }
+    #[verifier::external_body]
+    pub fn write(self, v: bool) -> (r: OpenOptions)
+        ensures r.o_create() == self.o_create() && r.o_truncate() == self.o_truncate() && r.o_write() == v,
+    { unimplemented!() }
+    /// std::fs::OpenOptions::open: with create+write the file exists
+    /// afterwards; with truncate it is then empty, without it keeps its content.
+    #[verifier::external_body]
+    pub fn open<P: PathLike>(self, fs: &mut Fs, path: P) -> (r: Result<File>)
+        ensures
+            files_same_except(old(fs)@, final(fs)@, path.pv()),
+            final(fs)@.dirs == old(fs)@.dirs,
+            r.is_ok() && self.o_create() && self.o_write() ==> final(fs)@.files.contains_key(path.pv())
+                && final(fs)@.files[path.pv()] == (if self.o_truncate() || !old(fs)@.files.contains_key(path.pv()) { Seq::<u8>::empty() } else { old(fs)@.files[path.pv()] })
+                && r.unwrap()@.path == path.pv() && r.unwrap()@.pos == 0,
+    { unimplemented!() }
+}
+#[derive(Debug)]
+pub struct LockError { pub error: Error }
+/// async_fd_lock RwLockWriteGuard<File>: the locked file itself
+#[verifier::external_body]
+pub struct WriteGuard { _p: () }
+impl View for WriteGuard {
+    type V = FileV;
+    uninterp spec fn view(&self) -> FileV;
+}
+impl File {
+    #[verifier::external_body]
+    pub fn lock_write(self) -> (r: core::result::Result<WriteGuard, LockError>)
+        ensures r.is_ok() ==> r.unwrap()@ == self@,
+    { unimplemented!() }
+}
+impl WriteGuard {
+    /// AsyncWriteExt::write_all on the file: at the cursor, overwrite/extend
+    #[verifier::external_body]
+    pub fn write_all(&mut self, fs: &mut Fs, data: &[u8]) -> (r: Result<()>)
+        requires old(fs)@.files.contains_key(old(self)@.path),
+        ensures
+            files_same_except(old(fs)@, final(fs)@, old(self)@.path),
+            final(fs)@.dirs == old(fs)@.dirs,
+            final(self)@.path == old(self)@.path,
+            r.is_ok() ==> final(fs)@.files.contains_key(old(self)@.path)
+                && final(fs)@.files[old(self)@.path] == splice(old(fs)@.files[old(self)@.path], old(self)@.pos, data@)
+                && final(self)@.pos == old(self)@.pos + data@.len(),
+    { unimplemented!() }
+    #[verifier::external_body]
+    pub fn flush(&mut self) -> (r: Result<()>)
+        ensures final(self)@ == old(self)@,
+    { unimplemented!() }
+}
+
